@@ -100,15 +100,15 @@ Definition trace_of (obs : list (who * list label)) (w : who) : list label :=
 
 Definition types_of (i : binput) : list nat := map fst (bi_routes i).
 
-Definition agree (i : binput) (o : bobs) : bool :=
-  match model_run i with
+Definition agree_run (i : binput) (o : bobs) (threads : list (list action)) (relabel : label -> label) : bool :=
+  match replay (program_of i) (cfg_of (bi_opts i)) 4000 (start threads) (bi_sched i) with
   | None => false
   | Some r =>
     let s := rs_state r in
     let n := length (bi_threads i) in
     (* every actor of the model has the observed trace, and every observed trace belongs to a model actor *)
     forallb (fun al => match who_of n s (fst al) with
-                       | Some w => list_eqb label_eqb (snd al) (trace_of (bo_traces o) w)
+                       | Some w => list_eqb label_eqb (map relabel (snd al)) (trace_of (bo_traces o) w)
                        | None => match snd al with [] => true | _ => false end
                        end) (rs_trace r) &&
     forallb (fun wl => match snd wl with
@@ -122,6 +122,29 @@ Definition agree (i : binput) (o : bobs) : bool :=
       (filter (fun t => match assoc_get (code s) t with Some (_ :: _) => true | _ => false end) (seq 0 n))
       (bo_unfinished o) &&
     Nat.eqb (store_closed s) (bo_closed o)
+  end.
+
+(* Shutdown(ctx) selects between "all async work done" and ctx.Done(): when both are ready - the context was cancelled
+   before the call and nothing is in flight - Go picks either.  The model run prefers the context; the second run
+   below is the one in which "done" wins: the same program with the Shutdown contexts made uncancellable (so that the
+   model waits for the waiter), its Shutdown labels renamed back. *)
+Definition shutdown_ctx (threads : list (list action)) : option ctxref :=
+  match flat_map (fun th => flat_map (fun a => match a with AShutdown (CtxId c) => [CtxId c] | _ => [] end) th) threads with
+  | c :: _ => Some c | [] => None end.
+Definition done_wins (threads : list (list action)) : list (list action) :=
+  map (map (fun a => match a with AShutdown (CtxId _) => AShutdown CtxBg | _ => a end)) threads.
+Definition relabel_shutdown (c : ctxref) (l : label) : label :=
+  match l with
+  | LAct (AShutdown CtxBg) => LAct (AShutdown c)
+  | LRes (AShutdown CtxBg) r => LRes (AShutdown c) r
+  | _ => l
+  end.
+
+Definition agree (i : binput) (o : bobs) : bool :=
+  agree_run i o (bi_threads i) (fun l => l) ||
+  match shutdown_ctx (bi_threads i) with
+  | Some c => agree_run i o (done_wins (bi_threads i)) (relabel_shutdown c)
+  | None => false
   end.
 
 Definition check_bus_agree (c : binput * bobs) : bool * bool * nat := let '(i, o) := c in (agree i o, true, 0).
